@@ -211,6 +211,43 @@ pub fn run(cfg: &Cfg, rep: &mut Report) {
             }
         }
     }
+    // field names: every identifier shape the grammar admits (upper / mixed case, digits, underscores, look-alikes
+    // of keywords and of type names, pairs that differ only in case, long names) in every position of a type
+    if cfg.shard == 1 % cfg.nshards {
+        let long = "q".repeat(64);
+        let names: Vec<&str> = vec![
+            "A", "Z", "Name", "userId", "X1", "_", "_x", "__", "a_b", "aB", "Ab", "AB", "z9", "intx", "int_", "Int", "INT", "String", "Float", "Bool", "Any", "Mut",
+            "mutable", "structure", "STRUCT", "anything", "boolean", "floaty", "stringy", "iff", "returns", "trues", "matchx", "fn_", "self", "Self", "r#a".trim_start_matches("r#"), "a0", "a00", "a_", "_a", "_0", "k", "K", &long,
+            "int", "float", "string", "bool", "any", "if", "else", "match", "in", "set", "std", "import", "trueish", "falsey", "breaks", "continued", "mutx", "returnx", "loops", "whiles", "fore", "modx", "structx",
+        ];
+        let leaf = [Ty::Int, Ty::Str, Ty::Float, Ty::Bool, Ty::arr(Ty::Int)];
+        let st_of = |ns: &[&str]| {
+            let mut fs = std::collections::BTreeMap::new();
+            for (k, n) in ns.iter().enumerate() {
+                fs.insert(n.to_string(), leaf[k % leaf.len()].clone());
+            }
+            Ty::Struct(fs)
+        };
+        let mut structs: Vec<Ty> = names.iter().map(|n| st_of(&[n])).collect();
+        for w in names.windows(2) {
+            structs.push(st_of(w));
+        }
+        for pair in [["a", "A"], ["k", "K"], ["ab", "aB"], ["Ab", "AB"], ["int_", "Int"], ["x1", "X1"], ["_a", "_A"], ["name", "Name"]] {
+            structs.push(st_of(&pair));
+            let mut fs = std::collections::BTreeMap::new();
+            fs.insert(pair[0].to_string(), Ty::Int);
+            fs.insert(pair[1].to_string(), Ty::Str);
+            fs.insert("mid".to_string(), Ty::Float);
+            structs.push(Ty::Struct(fs));
+        }
+        structs.push(st_of(&names));
+        for st in structs {
+            for t in [st.clone(), Ty::arr(st.clone()), Ty::mutc(st.clone()), Ty::Tup(vec![Ty::Int, st.clone()]), Ty::fun(vec![st.clone()], Ty::arr(st.clone())), Ty::union([st.clone(), Ty::Int]), Ty::Struct([("Outer".to_string(), st.clone())].into_iter().collect())] {
+                rep.count("field-name-types");
+                check_type(&t, reps.min(4), rep);
+            }
+        }
+    }
     // wide types: structs / tuples / unions / parameter lists with many members (printing must not abbreviate)
     if cfg.shard == 0 {
         let leaf = [Ty::Int, Ty::Str, Ty::Float, Ty::Bool, Ty::Void, Ty::arr(Ty::Int), Ty::mutc(Ty::Int), Ty::Tup(vec![Ty::Int, Ty::Str])];
